@@ -585,29 +585,46 @@ def _is_err_aggregate(rv):
 def error_blocks(f):
     """Blocks that put an `Err(..)` (or `Some(Err(..))`) into the return place, and blocks that call
     FromResidual::from_residual (the `?` error path)."""
+    c = getattr(f, "_err_blocks", None)
+    if c is not None:
+        return c
     errs = set()
+    err_locals = set()
+    changed = True
+    while changed:
+        changed = False
+        for i, b in enumerate(f.blocks):
+            if b.get("cleanup"):
+                continue
+            for st in b["stmts"]:
+                if st["k"] != "assign":
+                    continue
+                rv = st["rv"]
+                to = st["to"]
+                if "p" in to:
+                    continue
+                is_err = False
+                if _is_err_aggregate(rv):
+                    is_err = True
+                elif rv.get("k") == "agg" and rv.get("adt") == "std::option::Option" and rv.get("variant") == "Some":
+                    is_err = bool(rv["ops"]) and _op_local(rv["ops"][0]) in err_locals
+                elif rv.get("k") == "use":
+                    is_err = _op_local(rv["op"]) in err_locals
+                if is_err:
+                    if to["l"] == 0:
+                        if i not in errs:
+                            errs.add(i)
+                            changed = True
+                    elif to["l"] not in err_locals and len(f.defs().get(to["l"], [])) == 1:
+                        err_locals.add(to["l"])
+                        changed = True
     for i, b in enumerate(f.blocks):
         if b.get("cleanup"):
             continue
-        err_locals = set()
-        for st in b["stmts"]:
-            if st["k"] != "assign":
-                continue
-            rv = st["rv"]
-            to = st["to"]
-            if _is_err_aggregate(rv):
-                if to["l"] == 0 and "p" not in to:
-                    errs.add(i)
-                else:
-                    err_locals.add(to["l"])
-            elif rv.get("k") == "agg" and rv.get("adt") == "std::option::Option" and rv.get("variant") == "Some":
-                if to["l"] == 0 and rv["ops"] and _op_local(rv["ops"][0]) in err_locals:
-                    errs.add(i)
-            elif rv.get("k") == "use" and to["l"] == 0 and "p" not in to and _op_local(rv["op"]) in err_locals:
-                errs.add(i)
         t = b["term"]
         if t["k"] == "call" and t["callee"].get("path") == FROM_RESIDUAL:
             errs.add(i)
+    f._err_blocks = errs
     return errs
 
 
@@ -1206,3 +1223,136 @@ def pat_str(p):
     if k == "lit":
         return str(p.get("v", p.get("s", p.get("bs", "lit"))))
     return k or "?"
+
+
+# --------------------------------------------------------------------------------------
+# error discipline: what happens to a Result produced by a call
+
+RESULT_ADAPTORS = (
+    "std::result::Result::map_err", "std::result::Result::inspect_err", "std::result::Result::inspect",
+    "std::result::Result::map", "std::result::Result::and_then", "std::option::Option::transpose",
+    "std::result::Result::or_else", "std::convert::Into::into", "std::convert::From::from",
+    "std::result::Result::as_ref", "std::result::Result::as_mut", "std::iter::Iterator::collect",
+)
+RESULT_PANICS = ("std::result::Result::expect", "std::result::Result::unwrap", "std::result::Result::unwrap_or_else",
+                 "std::result::Result::expect_err", "std::result::Result::unwrap_err")
+RESULT_SWALLOW = ("std::result::Result::ok", "std::result::Result::unwrap_or_default", "std::result::Result::unwrap_or",
+                  "std::result::Result::is_ok", "std::result::Result::is_err", "std::result::Result::err",
+                  "std::result::Result::is_ok_and", "std::result::Result::is_err_and", "std::result::Result::map_or",
+                  "std::result::Result::map_or_else", "std::mem::drop")
+
+
+def local_uses(f, l):
+    """All reads of local l outside cleanup blocks: list of (bb, kind, payload)."""
+    out = []
+
+    def op_is(op):
+        # reads of a payload through a downcast ((l as Err).0) are not uses of the Result itself
+        return op is not None and op.get("o") in ("copy", "move") and op["l"] == l and "pl" not in op
+
+    for i, b in enumerate(f.blocks):
+        if b.get("cleanup"):
+            continue
+        for st in b["stmts"]:
+            if st["k"] != "assign":
+                continue
+            rv = st["rv"]
+            k = rv["k"]
+            if k in ("use", "cast", "repeat") and op_is(rv["op"]):
+                out.append((i, "assign", st))
+            elif k in ("ref", "rawptr") and rv["place"]["l"] == l:
+                out.append((i, "ref", st))
+            elif k == "discr" and rv["place"]["l"] == l:
+                out.append((i, "discr", st))
+            elif k == "agg" and any(op_is(o) for o in rv["ops"]):
+                out.append((i, "agg", st))
+            elif k == "bin" and (op_is(rv["a"]) or op_is(rv["b"])):
+                out.append((i, "bin", st))
+            elif k == "un" and op_is(rv["a"]):
+                out.append((i, "un", st))
+        t = b["term"]
+        if t["k"] == "call":
+            for ai, a in enumerate(t["args"]):
+                if op_is(a):
+                    out.append((i, "arg", (Call(f, i, t), ai)))
+        elif t["k"] == "switch" and op_is(t["discr"]):
+            out.append((i, "switch", t))
+        elif t["k"] == "drop" and t["place"]["l"] == l and "p" not in t["place"]:
+            out.append((i, "drop", t))
+    return out
+
+
+def result_fate(f, call, _depth=0, _seen=None):
+    """Set of fates of the Result returned by `call`: propagated | returned | panics | swallowed:<how> | escapes."""
+    if _seen is None:
+        _seen = set()
+    fates = set()
+    if not call.dest or "p" in call.dest:
+        return {"escapes"}
+    work = [call.dest["l"]]
+    errs = error_blocks(f)
+    while work:
+        l = work.pop()
+        if l in _seen:
+            continue
+        _seen.add(l)
+        if l == 0:
+            fates.add("returned")
+            continue
+        uses = local_uses(f, l)
+        real = [u for u in uses if u[1] != "drop"]
+        if not real:
+            fates.add("swallowed:dropped")
+            continue
+        for (bb, kind, payload) in real:
+            if kind == "assign":
+                to = payload["to"]
+                if "p" in to:
+                    fates.add("escapes")
+                else:
+                    work.append(to["l"])
+            elif kind == "ref":
+                work.append(payload["to"]["l"])
+            elif kind == "agg":
+                to = payload["to"]
+                rv = payload["rv"]
+                # wrapped (e.g. Some(result)) and carried on
+                if "p" in to:
+                    fates.add("escapes")
+                else:
+                    work.append(to["l"])
+            elif kind == "arg":
+                c, ai = payload
+                if c.path == TRY_BRANCH:
+                    fates.add("propagated")
+                elif c.is_to(*RESULT_PANICS):
+                    fates.add("panics")
+                elif c.is_to(*RESULT_SWALLOW):
+                    fates.add("swallowed:%s" % short(c.sres))
+                elif c.is_to(*RESULT_ADAPTORS) or c.is_to(*PASS_THROUGH_CALLS):
+                    if c.dest and "p" not in c.dest:
+                        work.append(c.dest["l"])
+                else:
+                    fates.add("escapes")   # handed to some other function
+            elif kind == "discr":
+                dl = payload["to"]["l"]
+                for (sb, skind, spay) in local_uses(f, dl):
+                    if skind != "switch":
+                        continue
+                    t = spay
+                    err_t = [tb for v, tb in t["targets"] if v == 1]
+                    if not err_t:
+                        err_t = [t["otherwise"]]
+                    ok_t = [tb for v, tb in t["targets"] if v == 0] or [t["otherwise"]]
+                    err_only = [e for e in err_t if e not in ok_t]
+                    if not err_only:
+                        fates.add("matched")
+                        continue
+                    r = f.reach(err_only, cut_blocks=errs)
+                    if any(rb in r for rb in f.return_blocks()):
+                        fates.add("swallowed:err-arm-continues")
+                    else:
+                        fates.add("propagated")
+            else:
+                fates.add("escapes")
+    return fates
